@@ -354,7 +354,7 @@ func run(t *testing.T, tape *simrt.Tape) *hx.Outcome {
 		}
 	}
 	mounted, walked, reads := 0, 0, 0
-	res := simrt.Run(t, tape, simrt.Options{MaxSteps: 600000, HangAfter: 2 * time.Hour}, func(s *simrt.Sim, mt *simrt.Task) {
+	res := simrt.Run(t, tape, simrt.Options{MaxSteps: 5000000, HangAfter: 2 * time.Hour}, func(s *simrt.Sim, mt *simrt.Task) {
 		s.Procs = 1 + s.Tape.Draw("cfg", 3)
 		s.UseDisk(simrt.DiskCfg{Yield: false})
 		if campaign == "builder-input" {
